@@ -331,7 +331,7 @@ func runC03(c *Ctx) {
 	c.R.Explain = "Clause A (no panic, no read beyond len) by abstract interpretation of every decoder entry point with arbitrary body bytes, " +
 		"arbitrary receiver contents, every dialect and version (selectors are unconstrained receiver/header fields); clause B follows from A because " +
 		"re-slices are proven against len, never cap; clause C (history independence) by taint tracking of the receiver's initial contents to " +
-		"successful returns and to branch conditions. clause D (String() totality) by abstract interpretation of every String() method with an arbitrary receiver, helpers included; three re-slices that are safe only for parsed field lengths are reported as informational. Termination is not decided."
+		"successful returns and to branch conditions. clause D (String() totality) by abstract interpretation of every String() method with an arbitrary receiver, helpers included; three re-slices that are safe only for parsed field lengths are reported as informational. Termination is decided only for loops guarded by a counter compared with an invariant bound (E1.progress: the counter advances on every path back to the head); other loops are not decided."
 }
 
 func sortedKeys(m map[string]int) []string {
